@@ -76,11 +76,15 @@ for _n in ("add_tf_tf", "sub_tf_tf", "add_tf_f64", "add_f64_tf", "sub_tf_f64", "
 # ------------------------------------------------------------------ C04 / C05 (f64 divisor)
 for _n, _f in {"alg9_mul_tf_f64": "Mul<&f64> for &TwoFloat", "alg9_mul_f64_tf": "Mul<&TwoFloat> for &f64", "alg9_mul_assign_f64": "MulAssign<&f64> for TwoFloat",
                "alg12_mul_tf_tf": "Mul<&TwoFloat> for &TwoFloat", "alg12_mul_assign_tf": "MulAssign<&TwoFloat> for TwoFloat"}.items():
-    ob("c04::" + _n, ["C04", "C12", "C11"], cls="miter", timeout=600, functions=[_f], backend="cbmc+cvc5", share=_n.startswith("alg12"), witness="c04::bound_" + _n.split("_", 1)[1])
+    ob("c04::" + _n, ["C04", "C12", "C11"], cls="miter", timeout=300, functions=[_f], backend="cbmc+cvc5", share=_n.startswith("alg12"), witness="c04::bound_" + _n.split("_", 1)[1])
     ob("c04::bound_" + _n.split("_", 1)[1], "C04", tier="witness", cls="bounded", timeout=420, functions=[_f],
        bound={"significand_bits": 12, "high_words": "[2^-30, 2^30]", "low_words": "0 or >= 2^-90"})
 for _n, _f in {"alg15_div_tf_f64": "Div<&f64> for &TwoFloat", "alg15_div_assign_f64": "DivAssign<&f64> for TwoFloat", "alg15_new_div": "TwoFloat::new_div"}.items():
-    ob("c04::" + _n, ["C05", "C02"], cls="miter", timeout=600, functions=[_f], backend="cbmc+cvc5", share=True)
+    ob("c04::" + _n, ["C05", "C02"], cls="miter", timeout=300, functions=[_f], backend="cbmc+cvc5", share=True,
+       witness=("c04::witness_" + _n.split("_", 1)[1]) if _n != "alg15_new_div" else None)
+for _n in ("div_tf_f64", "div_assign_f64"):
+    ob("c04::witness_" + _n, "C05", tier="witness", cls="bounded", timeout=420, functions=["Algorithm 15 miter on the bounded domain (witness search)"],
+       bound={"significand_bits": 12, "high_words": "[2^-30, 2^30]", "low_words": "0 or >= 2^-90"})
 ob("c04::mul_zero_factor_f64", "C04", timeout=900, functions=["Mul/MulAssign bodies (zero factor)"])
 ob("c04::mul_zero_factor_tf", "C04", timeout=900, functions=["Mul/MulAssign bodies (zero factor)"])
 for _n in ("mul_by_one_f64", "mul_by_minus_one_f64", "mul_by_one_tf", "mul_one_tf_by_x", "mul_by_minus_one_tf"):
@@ -235,7 +239,7 @@ for _n in ("tf_tf", "tf_f64", "f64_tf"):
     ob("c19::rem_is_truncated_formula_" + _n, "C19", cls="miter", timeout=300, functions=["Rem impls"])
 ob("c19::rem_euclid_structure", "C19", cls="miter", timeout=300, functions=["TwoFloat::rem_euclid"])
 for _n in ("alg9_mul_tf_f64", "alg9_mul_f64_tf", "alg9_mul_assign_f64", "alg12_mul_tf_tf", "alg12_mul_assign_tf", "alg15_div_tf_f64", "alg15_div_assign_f64", "new_mul_is_fma_form"):
-    ob("c11::nostd_" + _n, "C11", cls="miter", timeout=600, backend="cbmc+cvc5", features="nostd", functions=["arithmetic::fma (no-std definition) through " + _n])
+    ob("c11::nostd_" + _n, "C11", cls="miter", timeout=300, backend="cbmc+cvc5", features="nostd", functions=["arithmetic::fma (no-std definition) through " + _n])
 
 # ------------------------------------------------------------------ C20
 ob("c20::sd::deserialize_seq", "C20", features="serde", timeout=600, functions=["Deserialize for TwoFloat (visit_seq)", "TryFrom<(f64,f64)> for TwoFloat"])
